@@ -12,6 +12,12 @@ CLAIMED = {
    text="Bounded symbolic model checking of the real comparison code: the MIR of PartialEq/PartialOrd for Number, exact_eqv, the builtins = < > <= >= (typed_comparision!), max/min (first_of_order!) and eqv? is executed symbolically; z3 decides agreement with the mathematical order (sign-aware cross-multiplication in Z for exact operands, IEEE order of the binary32 conversions for mixed ones), n-ary = conjunction of adjacent pairs, max/min = an extreme argument with contagion, eqv? = same exactness and equal, plus antisymmetry and transitivity of the implementation alone. Every internal representation (negative denominators, unreduced ratios) is compared with every other, which the suite's eight tuples cannot do.",
    note="Trusted: rustc MIR semantics, the std models listed in the evidence, z3. Bounds: binary order/equality at full i32 width and all binary32 values; n-ary predicates and max/min for 0..3 (quick) / 0..4 (thorough) exact arguments below 2^15, mixed-exactness arguments through the builtins only pairwise and only in the thorough tier; order laws below 2^15. Feasibility queries that the solver cannot decide quickly are treated as feasible (over-approximation). Evaluation of comparison expressions in whole programs is outside.",
    ref="DESIGN.md section 4 (C10)"),
+ "C18": dict(
+   engine="kani",
+   technique="solver-based bounded checking: Kani/CBMC (SAT) over the compiled code of repl::check_bracket_closed with a symbolic text, against a reference model of the reader's lexical structure that is validated against the real Lexer",
+   text="Bounded model checking of the REPL's completeness test: Kani/CBMC decides, for every text of length <= 8 (quick) / <= 16 (thorough) over the 13 characters the reader treats specially (plus a letter, a digit, a blank), that check_bracket_closed(text) is true exactly when the reader's token stream has closed every list it opened; the harness is appended to a scratch copy, unwinding assertions on, kani::cover witnesses required. The oracle (a one-pass model of the lexer's token boundaries) is itself compared with the real Lexer on every string up to length 5/6 on each run. The suite has no test of repl.rs at all.",
+   note="Trusted: Kani/CBMC/cadical, the reference model (validated natively against the real Lexer on 4*10^5 / 5*10^6 strings per run, which decides nothing by itself). Texts the reader rejects lexically are excluded. Outside: the rustyline loop run_with_interpreter (accumulation of lines, printing, history) - I/O, not encodable; characters outside the alphabet on the reader's side (digits/signs/dots/#t etc.); a second harness shows check_bracket_closed itself treats any non-special character like a letter.",
+   ref="DESIGN.md section 4 (C18)"),
 }
 NA = {}
 def main():
@@ -45,6 +51,7 @@ def main():
     }
     json.dump(m, open(os.path.join(V, "MANIFEST.json"), "w"), indent=1)
 SOURCE_COMMITS = ["8a1fb00 fix: floor and ceiling of a ratio round in the right direction for every sign combination",
-                  "1b29fe7 fix: compare ratios correctly when their denominators have opposite signs"]
+                  "1b29fe7 fix: compare ratios correctly when their denominators have opposite signs",
+                  "4663384 fix: REPL bracket counter follows the reader's lexical structure"]
 if __name__ == "__main__":
     main()
